@@ -383,28 +383,96 @@ func (c *Ctx) ttGetter(method, flag string, positive bool) {
 }
 
 func (c *Ctx) ttCanPushNester() {
-	tb := ttTable{
+	c.runTable(ttTable{
 		rule: "R-TT", fn: "(*stack).canPushNester",
-		atoms: []ttAtom{
-			c.atomCallBool("isStack(x)", []string{"stackTypeAliasConverter"}, nil),
-			c.nativeStackAtom(1),
-			c.flagAtom("nnest", "nnest"),
-		},
-		feasible: func(v map[string]bool) bool {
-			// the converter is not consulted for a native Stack: keep one representative
-			return !(v["native(x)"] && v["isStack(x)"])
-		},
-		expect: func(v map[string]bool) string { return fmt.Sprint(!((v["isStack(x)"] || v["native(x)"]) && v["nnest"])) },
+		atoms: []ttAtom{c.stackKindAtom(1), c.flagAtom("nnest", "nnest")},
+		expect:  func(v map[string]bool) string { return fmt.Sprint(!(v["isStackKind(x)"] && v["nnest"])) },
 		outcome: c.boolOutcome(0),
-	}
-	// the converter returns (Stack,bool): the atom is its second result
-	tb.atoms[0] = ttAtom{"isStack(x)", func(fa *FnAnalysis, st *State) (bool, bool) {
-		for _, call := range c.findCalls(fa.fn, "stackTypeAliasConverter") {
-			if v, ok := fa.knownTerm(st, aTR, fa.callResultTerm(st, call, 1)); ok {
-				return v, true
+	})
+	c.ttIsStackKind()
+}
+
+// stackKindAtom: isStackKind() was applied to parameter k and its verdict is known.
+func (c *Ctx) stackKindAtom(k int) ttAtom {
+	return ttAtom{"isStackKind(x)", func(fa *FnAnalysis, st *State) (bool, bool) {
+		for _, call := range c.findCalls(fa.fn, "isStackKind") {
+			if t := fa.term(st, call.Call.Args[0]); t.K == "P" && t.N == k {
+				if v, ok := fa.knownTerm(st, aTR, fa.term(st, call)); ok {
+					return v, true
+				}
 			}
 		}
 		return false, false
 	}}
-	c.runTable(tb)
+}
+
+// ttIsStackKind: the type-level test itself: false for nil; true for the native type; otherwise
+// exactly ConvertibleTo(Stack) of the pointer-flattened type of the argument.
+func (c *Ctx) ttIsStackKind() {
+	rep := c.rep
+	fn := c.anchor("R-TT", "isStackKind")
+	if fn == nil {
+		return
+	}
+	fa := c.eng.analyze(fn, nil)
+	tt := c.eng.tt
+	var problems []string
+	var ct *ssa.Call
+	for _, b := range fn.Blocks {
+		for _, in := range b.Instrs {
+			if call, ok := in.(*ssa.Call); ok && call.Call.IsInvoke() && call.Call.Method.Name() == "ConvertibleTo" {
+				ct = call
+			}
+		}
+	}
+	dps := c.findCalls(fn, "derefPtr")
+	if ct == nil || len(dps) != 1 {
+		problems = append(problems, "expected one derefPtr call and one ConvertibleTo test")
+	} else {
+		if ex, ok := ct.Call.Value.(*ssa.Extract); !ok || ex.Tuple != ssa.Value(dps[0]) || ex.Index != 0 {
+			problems = append(problems, "the convertibility test is not made on the pointer-flattened type")
+		}
+		for k, want := range []string{"reflect.TypeOf", "reflect.ValueOf"} {
+			ac, ok := dps[0].Call.Args[k].(*ssa.Call)
+			if !ok || c.calleeName(&ac.Call) != want || ac.Call.Args[0] != ssa.Value(fn.Params[0]) {
+				problems = append(problems, "derefPtr is not applied to (typOf(x), valOf(x)) of the argument itself")
+			}
+		}
+		typ := c.p.Types.Scope().Lookup("Stack").Type()
+		taok := tt.mk(Term{K: "TAOK", S: typeStr(typ), Typ: typ, A: tt.mk(Term{K: "P", N: 0, S: fn.Params[0].Name()})})
+		for _, ret := range c.returnsOf(fn) {
+			for _, s := range fa.statesBefore(ret) {
+				rt := fa.term(s, ret.Results[0])
+				if nn, known := fa.nonNil(s, fn.Params[0]); known && !nn {
+					if v, k := c.knownBool(fa, s, ret.Results[0]); !k || v {
+						problems = append(problems, "nil is not declined")
+					}
+					continue
+				}
+				if v, known := fa.knownTerm(s, aTR, taok); known && v {
+					if r, k := c.knownBool(fa, s, ret.Results[0]); !k || !r {
+						problems = append(problems, "a native Stack is not recognised")
+					}
+					continue
+				}
+				// otherwise the verdict is the convertibility test's
+				if rt != fa.term(s, ct) {
+					if v, k := c.knownBool(fa, s, ret.Results[0]); k {
+						if cv, ck := fa.knownTerm(s, aTR, fa.term(s, ct)); !ck || cv != v {
+							problems = append(problems, "the verdict is not the convertibility of the pointer-flattened type")
+						}
+					} else {
+						problems = append(problems, "the verdict is not the convertibility of the pointer-flattened type: "+rt.key)
+					}
+				}
+			}
+		}
+	}
+	pos := c.p.pos(fn.Pos())
+	if len(problems) == 0 {
+		rep.ok("R-TT", "isStackKind", "type-level Stack test", pos, "false for nil, true for the native type, otherwise ConvertibleTo(Stack) of derefPtr(typOf(x), valOf(x))")
+	} else {
+		sort.Strings(problems)
+		rep.bad("R-TT", "isStackKind", "type-level Stack test", pos, strings.Join(uniq(problems), "; "))
+	}
 }
